@@ -296,6 +296,31 @@ func run(c Case) engine.Result {
 			}
 		}
 	}
+	// -generated: the same verdict with subroutine/boilerplate-macro ignored on top of the configured overrides
+	{
+		cg := c
+		cg.Overrides = map[string]string{}
+		for k, v := range c.Overrides {
+			cg.Overrides[k] = v
+		}
+		cg.Overrides["subroutine/boilerplate-macro"] = "IGNORE"
+		wantG := reference(cg)
+		for _, mode := range [][]string{{"-generated"}, {"-generated", "-json"}} {
+			args := append(append([]string{}, mode...), "main.vcl")
+			got, out := runCLI(dir, args...)
+			bad := (got.exit != 0) != (wantG.exit != 0)
+			if !bad && wantG.counted && got.counted && (got.errors != wantG.errors || got.warnings != wantG.warnings || got.infos != wantG.infos) {
+				bad = true
+			}
+			if bad {
+				res.Findings = append(res.Findings, engine.Finding{
+					Class:  fmt.Sprintf("verdict|%s|%s|overrides=%s", c.Situation, strings.Join(mode, ""), ovKind),
+					What:   fmt.Sprintf("situation %s, `falco lint %s`, overrides %v: expected %s, got %s", c.Situation, strings.Join(args, " "), c.Overrides, wantG, got),
+					Detail: map[string]string{"main": c.Main, "output": trunc(out)},
+				})
+			}
+		}
+	}
 	if len(res.Findings) > 0 {
 		res.Outcome = "inconsistent"
 		seen := map[string]bool{}
@@ -322,7 +347,7 @@ func init() {
 	engine.Register(engine.Spec[Case]{
 		ID:    "C04",
 		Level: "exploration",
-		Rule: "26 program situations (clean; INFO / WARNING / ERROR only and combined; ERROR silenced by each ignore form; syntax error in main, in an included module at root and statement level, in an included module followed / preceded by a module that parses, in a nested include; missing include; include cycle; error / warning inside an included module; statement-only snippets with and without @scope, with a lint error, with a syntax error; empty file) x .falco.yml rule overrides (none; every rule that fires x {ERROR, WARNING, INFO, IGNORE} in both letter cases; all pairs of levels for two fired rules; an unrelated rule), each run through the real `falco lint` binary in a private directory under all 6 combinations {plain, -json} x {default, -v, -vv}; oracles: (a) exit status and counts equal the verdict computed through the library (parser + linter + override map), (b) exit status and counts identical across the 6 combinations, (c) the -json document agrees with the summary line. non-trivial = every cell; distinct = distinct (program, overrides)",
+		Rule: "26 program situations (clean; INFO / WARNING / ERROR only and combined; ERROR silenced by each ignore form; syntax error in main, in an included module at root and statement level, in an included module followed / preceded by a module that parses, in a nested include; missing include; include cycle; error / warning inside an included module; statement-only snippets with and without @scope, with a lint error, with a syntax error; empty file) x .falco.yml rule overrides (none; every rule that fires x {ERROR, WARNING, INFO, IGNORE} in both letter cases; all pairs of levels for two fired rules; an unrelated rule), each run through the real `falco lint` binary in a private directory under all 6 combinations {plain, -json} x {default, -v, -vv} and with -generated (plain and -json); oracles: (a) exit status and counts equal the verdict computed through the library (parser + linter + override map), (b) exit status and counts identical across the 6 combinations, (c) the -json document agrees with the summary line. non-trivial = every cell; distinct = distinct (program, overrides)",
 		Gen:  gen04,
 		Key: func(c Case) string {
 			ks := make([]string, 0, len(c.Overrides))
